@@ -7,6 +7,7 @@ from authlib.common.urls import urlparse
 
 from .errors import DuplicatedOAuthProtocolParameterError
 from .errors import InsecureTransportError
+from .errors import InvalidRequestError
 from .signature import SIGNATURE_TYPE_BODY
 from .signature import SIGNATURE_TYPE_HEADER
 from .signature import SIGNATURE_TYPE_QUERY
@@ -27,7 +28,10 @@ class OAuth1Request:
         self.user = None
 
         self.query = urlparse.urlparse(uri).query
-        self.query_params = url_decode(self.query)
+        try:
+            self.query_params = url_decode(self.query)
+        except ValueError as exc:
+            raise InvalidRequestError("Malformed query string") from exc
         self.body_params = extract_params(body) or []
 
         self.auth_params, self.realm = _parse_authorization_header(headers)
@@ -103,7 +107,7 @@ def _parse_authorization_header(headers):
             return auth_params, realm
         except (IndexError, ValueError):
             pass
-    raise ValueError("Malformed authorization header")
+    raise InvalidRequestError("Malformed authorization header")
 
 
 def _parse_oauth_params(query_params, body_params, auth_params):
